@@ -4,7 +4,7 @@ from __future__ import annotations
 import ast
 
 from sa.cfg import CFG
-from sa.expr import cmp_atom, edges_where, resolve, single_defs
+from sa.expr import MIRROR, OPSTR, cmp_atom, edges_where, inline_simple_calls, resolve, single_defs
 from sa.loader import AnalysisError, Program, dotted, norm, own_nodes
 from sa.util import kwarg, self_attr, where
 
@@ -29,7 +29,18 @@ def is_false_return(n) -> bool:
     return n.kind == "stmt" and isinstance(n.ast, ast.Return) and isinstance(n.ast.value, ast.Constant) and n.ast.value.value is False
 
 
-def gate_edges(g: CFG, defs, field: str):
+def method_lookup(p: Program, cls):
+    """callee resolver for inline_simple_calls: `self.m(..)` -> the method's FunctionDef."""
+    def lookup(call):
+        f = call.func
+        if isinstance(f, ast.Attribute) and isinstance(f.value, ast.Name) and f.value.id == "self":
+            m = p.lookup_method(cls, f.attr)
+            return m.node if m is not None and f.attr not in HELPER_GATES else None
+        return None
+    return lookup
+
+
+def gate_edges(g: CFG, defs, field: str, lookup=None):
     """(pass_edges, gates) for tests mentioning self.<field> one of whose edges goes straight to
     `return False`."""
     pass_edges, gates = [], []
@@ -37,6 +48,8 @@ def gate_edges(g: CFG, defs, field: str):
         if t.kind != "test":
             continue
         e = resolve(t.expr, defs, depth=4)
+        if lookup is not None:
+            e = inline_simple_calls(e, lookup)
         if f"self.{field}" not in norm(e):
             continue
         a0 = cmp_atom(e.operand if isinstance(e, ast.UnaryOp) else e)
@@ -74,13 +87,23 @@ def protecting_polarity_ok(e: ast.AST, pk: str, field: str):
             if op in (ast.Lt, ast.LtE):
                 return False
         return None
-    pol = edges_where(e, atom)
-    if pk not in pol:
-        return None
-    # atom True means "measure below bound" (protect) for comparisons; for the helper the
-    # atom is False on the protecting edge
+    seen = []
+
+    def atom_rec(x):
+        r = atom(x)
+        if r is not None:
+            seen.append(r)
+        return r
+    pol = edges_where(e, atom_rec)
+    if not seen:
+        return None  # no comparison of the field in a shape we understand
+    # What protects is what is known on the *pass* edge (the edge that does not return False):
+    # there the comparison atom "measure below bound" must be known false (for the helper: known
+    # true). `a or <atom>` / `not (<atom>)` / swapped operands all give the same answer; a gate
+    # that leaves the atom undetermined on its pass edge (`a and <atom>`) does not protect.
+    pass_k = "f" if pk == "t" else "t"
     has_helper = any(isinstance(x, ast.Call) and (dotted(x.func) or "").split(".")[-1] in HELPER_GATES for x in ast.walk(e))
-    return (pol[pk] is False) if has_helper else (pol[pk] is True)
+    return (pol.get(pass_k) is True) if has_helper else (pol.get(pass_k) is False)
 
 
 def run(ctx):
@@ -110,6 +133,7 @@ def run(ctx):
         ctx.require(init is not None and prune is not None, f"R16.1: {q} lost __init__/prune")
         g = CFG(prune.node, name=prune.qualname)
         defs = single_defs(prune.node)
+        lookup = method_lookup(p, cls)
         rets = [n for n in g.stmt_nodes() if n.kind == "stmt" and isinstance(n.ast, ast.Return) and not is_false_return(n)]
         ctx.require(rets, f"R16.2: {cls.name}.prune has no pruning return at all")
         for fld in fields:
@@ -120,7 +144,7 @@ def run(ctx):
                 and param in init.params()
             ctx.check(ok, "R16.1", init.short, f"field-from-param:{fld}",
                       message=f"{cls.name}.{fld} is not assigned from constructor parameter `{param}`", how="self._x = x in __init__")
-            pass_edges, gates = gate_edges(g, defs, fld)
+            pass_edges, gates = gate_edges(g, defs, fld, lookup)
             if not gates:
                 ctx.fail("R16.2", prune.short, f"gate:{fld}",
                          f"{cls.name}.prune has no guard of the form `if <cond on self.{fld}>: return False`: the pruner can prune "
@@ -141,7 +165,7 @@ def run(ctx):
                           message=f"{cls.name}.prune: the {param} gate `{norm(e)[:70]}` returns False on the wrong side "
                                   f"(protection is inverted)", how="`measure < / <= bound` (or `not helper`) leads to return False",
                           where=where(prune, t.ast))
-    ctx.floor("R16.1", "protective_pairs", n_pairs, 10)
+    ctx.floor("R16.1", "protective_pairs", n_pairs, 10, exact=True)
     # subclasses that only forward constructor arguments
     for q, baseq in INHERITING.items():
         cls, base = p.cls(q), p.cls(baseq)
@@ -172,19 +196,37 @@ def run(ctx):
     f = tcls.methods["prune"]
     g = CFG(f.node, name=f.qualname)
     defs = single_defs(f.node)
+    v = "trial.intermediate_values[trial.last_step]"
+
+    def canon(e, positive=True):
+        """disjuncts under which the branch is taken, comparisons written with the value on the left"""
+        if isinstance(e, ast.UnaryOp) and isinstance(e.op, ast.Not):
+            return canon(e.operand, not positive)
+        if isinstance(e, ast.BoolOp) and isinstance(e.op, ast.Or) == positive:
+            out = []
+            for x in e.values:
+                out += canon(x, positive)
+            return out
+        a = cmp_atom(e)
+        if a is not None and a[1] in MIRROR:
+            l, op, r = a
+            if r == v and l != v:
+                l, op, r = r, MIRROR[op], l
+            if not positive:
+                from sa.expr import NEGATE
+                op = NEGATE[op]
+            return [f"{l} {OPSTR[op]} {r}"]
+        return [norm(e) if positive else "not (" + norm(e) + ")"]
     conds = []
     for t in g.stmt_nodes():
         if t.kind == "test":
             for k, m in t.succ:
                 if k in ("t", "f") and m.kind == "stmt" and isinstance(m.ast, ast.Return) and isinstance(m.ast.value, ast.Constant) and m.ast.value.value is True:
-                    e = resolve(t.expr, defs)
-                    txt = norm(e) if k == "t" else "not (" + norm(e) + ")"
-                    conds.append(txt)
-    v = "trial.intermediate_values[trial.last_step]"
+                    conds += canon(resolve(t.expr, defs), k == "t")
     want = {f"math.isnan({v})", f"{v} < self._lower", f"{v} > self._upper"}
     ctx.check(set(conds) == want, "R16.3", f.short, "threshold-decision",
               message=f"ThresholdPruner prunes under {sorted(conds)}; expected exactly {sorted(want)}",
-              how="three-disjunct normal form over the latest value")
+              how="three-disjunct normal form over the latest value (operand order and negation normalised)")
     other_true = [n for n in g.stmt_nodes() if n.kind == "stmt" and isinstance(n.ast, ast.Return) and not is_false_return(n)
                   and not (isinstance(n.ast.value, ast.Constant) and n.ast.value.value is True)]
     ctx.check(not other_true, "R16.3", f.short, "threshold-returns-constants", message="ThresholdPruner returns a computed value", how="only True/False constants")
@@ -241,25 +283,51 @@ def run(ctx):
     f = hcls.methods.get("_get_bracket_id")
     ctx.require(f is not None, "R16.4: _get_bracket_id vanished")
     allowed_attrs = {"study.study_name", "trial.number", "self._pruners", "self._n_brackets", "self._total_trial_allocation_budget",
-                     "self._trial_allocation_budgets", "binascii.crc32"}
-    allowed_calls = {"len", "range", "binascii.crc32", "'{}_{}'.format", "'{}_{}'.format(study.study_name, trial.number).encode"}
+                     "self._trial_allocation_budgets"}
+    pure_builtins = {"len", "range", "str", "int", "repr", "format", "abs", "min", "max", "sum", "enumerate", "zip", "bytes"}
+    pure_str_methods = {"format", "encode", "join"}
+    pure_module_funcs = {"binascii.crc32", "zlib.crc32"}
+    locals_ = set(f.params())
+    for x in own_nodes(f.node):
+        if isinstance(x, ast.Name) and isinstance(x.ctx, ast.Store):
+            locals_.add(x.id)
     bad = []
     for x in own_nodes(f.node):
         if isinstance(x, ast.Attribute) and isinstance(x.ctx, ast.Load):
             d = dotted(x)
-            if d is not None and d not in allowed_attrs and not any(a.startswith(d + ".") for a in allowed_attrs):
-                bad.append(d)
+            if d is None:
+                continue
+            root = d.split(".")[0]
+            if root in ("self", "study", "trial"):
+                if d not in allowed_attrs and not any(a.startswith(d + ".") for a in allowed_attrs):
+                    bad.append(d)
         if isinstance(x, ast.Call):
-            d = norm(x.func)
-            if d not in allowed_calls:
-                bad.append(d + "()")
-        if isinstance(x, ast.Name) and isinstance(x.ctx, ast.Load) and x.id not in ("self", "study", "trial", "n", "bracket_id", "binascii", "range", "len"):
+            fn = x.func
+            if isinstance(fn, ast.Name):
+                if fn.id not in pure_builtins:
+                    bad.append(fn.id + "()")
+            elif isinstance(fn, ast.Attribute):
+                d = dotted(fn)
+                root = d.split(".")[0] if d else None
+                if d in pure_module_funcs:
+                    pass
+                elif root in ("self", "study", "trial"):
+                    bad.append(d + "()")  # a method call on the study / trial / pruner: not a pure read of name and number
+                elif fn.attr in pure_str_methods and (root is None or root in locals_):
+                    pass  # string building on a literal / f-string / local
+                else:
+                    bad.append(norm(fn)[:40] + "()")
+            else:
+                bad.append(norm(fn)[:40] + "()")
+        if isinstance(x, ast.Name) and isinstance(x.ctx, ast.Load) and x.id not in locals_ and x.id not in pure_builtins \
+                and x.id not in ("binascii", "zlib"):
             bad.append(x.id)
     ctx.check(not bad, "R16.4", f.short, "bracket-id-purity",
               message=f"_get_bracket_id reads {sorted(set(bad))}: the bracket of a trial would depend on more than study name, "
                       f"trial number and pruner configuration", how="backward slice: only study.study_name, trial.number and configuration fields")
     hashed = [c for c in own_nodes(f.node) if isinstance(c, ast.Call) and dotted(c.func) == "binascii.crc32"]
-    ok = len(hashed) == 1 and "study.study_name" in norm(hashed[0]) and "trial.number" in norm(hashed[0])
+    hdefs = single_defs(f.node)
+    ok = len(hashed) == 1 and "study.study_name" in norm(resolve(hashed[0], hdefs)) and "trial.number" in norm(resolve(hashed[0], hdefs))
     ctx.check(ok, "R16.4", f.short, "bracket-hash-input", message="crc32 input is not (study_name, trial.number)", how="crc32('{study_name}_{number}')")
     # configuration fields written only during (re)initialisation
     cfg_fields = {"_n_brackets", "_total_trial_allocation_budget", "_trial_allocation_budgets", "_pruners"}
